@@ -260,6 +260,49 @@ def run(tier, seed):
                     reps += 1
                 pd, reg = regsim.build(s)
                 B.run_case(regrun.policy_of(pd), reg, "dict", "reject", f"binding-value/{nm}/{fmt}/{kind}", scn=s)
+    # ---- large signed material: client data of 4 MiB + and 8 MiB + (one large member the RP does not read): hashed in full, so the genuine ceremony is accepted and a bit
+    #      changed ANYWHERE - also beyond the first 4 / 8 MiB - is refused ----
+    import hashlib as _hl
+    for kind, size in (("ES256-P256", (1 << 22) + 17), ("RS256", (1 << 23) + 17), ("EdDSA", (1 << 22) + 4099)) if not quick else (("ES256-P256", (1 << 22) + 17), ("EdDSA", (1 << 23) + 17)):
+        s = authcat.Scn(kind)
+        s.cd_extra = {"pad": "x" * size}
+        pol, a = s.build()
+        il = impl.verify_auth(pol, a.as_record())
+        chk.evals += 1
+        if not il.startswith("OK"):
+            chk.violation(f"a genuine assertion whose clientDataJSON is {len(a.cdj)} bytes long is refused: {il}", f"auth-rejects-valid large-client-data {kind}", {"entry": "verify_authentication_response", "kind": kind, "client_data_length": len(a.cdj), "impl": il,
+                                                                                                                                                                       "how_to_build": "authcat.Scn(kind) with cd_extra={'pad': 'x' * size}"})
+            continue
+        orig = a.cdj
+        for off in (len(orig) - 40, (1 << 22) + 5, (1 << 22) - 3, len(orig) // 2, (1 << 23) + 9, 200):
+            if off >= len(orig) - 2:
+                continue
+            a.cdj = orig[:off] + bytes([orig[off] ^ 0x01]) + orig[off + 1:]
+            o2 = impl.verify_auth(pol, a.as_record())
+            chk.evals += 1
+            if o2.startswith("OK"):
+                chk.violation(f"authentication: bit 0 of byte {off} of a {len(orig)}-byte clientDataJSON changed, still accepted ({kind})", f"auth-flip large-client-data {kind} offset>={off >> 20}MiB",
+                              {"entry": "verify_authentication_response", "kind": kind, "client_data_length": len(orig), "byte_offset": off, "how_to_build": "authcat.Scn(kind) with cd_extra={'pad': 'x' * size}; flip bit 0 of that byte"})
+        a.cdj = orig
+        chk.seen(("large-client-data", kind, size))
+    for fmt in ("packed-self",) if quick else ("packed-self", "packed", "tpm"):
+        s = regsim.RScn(fmt, "ES256-P256")
+        s.cd_extra = {"pad": "y" * ((1 << 22) + 33)}
+        pd, reg = regsim.build(s)
+        P_ = regrun.policy_of(pd)
+        il = impl.verify_reg(P_, reg.as_record())
+        chk.evals += 1
+        if not il.startswith("OK"):
+            chk.violation(f"a genuine {fmt} registration whose clientDataJSON is {len(reg.cdj)} bytes long is refused: {il[:80]}", f"reg-rejects-valid large-client-data {fmt}", {"entry": "verify_registration_response", "fmt": fmt, "client_data_length": len(reg.cdj), "impl": il[:200]})
+            continue
+        orig = reg.cdj
+        for off in (len(orig) - 40, (1 << 22) + 5, len(orig) // 2):
+            reg.cdj = orig[:off] + bytes([orig[off] ^ 0x01]) + orig[off + 1:]
+            o2 = impl.verify_reg(P_, reg.as_record())
+            chk.evals += 1
+            if o2.startswith("OK"):
+                chk.violation(f"registration ({fmt}): bit 0 of byte {off} of a {len(orig)}-byte clientDataJSON changed, still accepted", f"reg-flip large-client-data {fmt}", {"entry": "verify_registration_response", "fmt": fmt, "client_data_length": len(orig), "byte_offset": off})
+        reg.cdj = orig
     # ---- degenerate keys: Ed25519 public keys of SMALL ORDER (the eight points whose order divides 8, in every encoding of them) ----
     # For such a key A the verification equation S*B = R + H(R,A,M)*A loses (most of) its dependence on the message: with A the identity, the signature (R = identity, S = 0)
     # verifies for EVERY message.  A credential that registered such a key (fmt none accepts any well-formed key) therefore authenticates with one fixed signature whatever
